@@ -1,8 +1,8 @@
 #!/bin/bash
-# confirm_seed.sh <PROP> <letter>: confirm a sub-agent's seeded change in its scratch worktree (outside /repo and /verif):
+# confirm_seed.sh <PROP> <letter> (OUT_LETTER=<x> stores it as seeded/<PROP>-<x>): confirm a sub-agent's seeded change in its scratch worktree (outside /repo and /verif):
 #  (1) full test suite passes with the change, (2) demo fails with it, (3) demo passes without. Writes /verif/seeded/<PROP>-<letter>/
 set -u
-P=$1; L=$2; W=${SEED_ROOT:-/tmp/seed_}$P; OUT=/verif/seeded/$P-$L
+P=$1; L=$2; W=${SEED_ROOT:-/tmp/seed_}$P; OUT=/verif/seeded/$P-${OUT_LETTER:-$L}
 mkdir -p $OUT
 cd $W || exit 2
 git checkout -q -- src; rm -rf tests; mkdir -p tests
